@@ -399,6 +399,7 @@ static void _GD_Delete(DIRFILE *restrict D, gd_entry_t *restrict E,
       if (new_ref[i] != NULL) {
         free(D->fragment[i].ref_name);
         D->fragment[i].ref_name = (new_ref[i] == (char *)E) ? NULL : new_ref[i];
+        D->fragment[i].modified = 1; /* its /REFERENCE line has changed */
       }
     free(new_ref);
   }
